@@ -859,6 +859,89 @@ class ExportTie:
         self.lines.append(sexp.dumps(["roundtrip", [n], ctxl, tbl, wire]))
         self.expect.append((name, real_items, real_check, len(table)))
 
+    # -- synthetic derivations from primitive rules: equal sub-derivations, equal conclusions under
+    #    different hypotheses, premises cited several times (what macros' proof terms rarely show)
+    def synth_one(self, rng):
+        from kernel.term import Var, Implies
+        from kernel.type import BoolType
+        from kernel.thm import Thm
+        P = self.impl.proofterm.ProofTerm
+        ItemID = self.impl.proof.ItemID
+        atoms = [Var(n, BoolType) for n in "ABC"]
+        nprem = rng.randint(0, 3)
+        prems = []
+        for i in range(nprem):
+            c = rng.choice(atoms) if rng.random() < 0.6 else Implies(rng.choice(atoms), rng.choice(atoms))
+            hs = tuple(rng.sample(atoms, rng.randint(0, 2)))
+            prems.append(Thm(c, hs))
+        leaves = [P.atom(ItemID(i), th) for i, th in enumerate(prems)]
+
+        def prove(X, d):
+            k = rng.random()
+            cands = [l for l in leaves if l.prop == X]
+            if cands and k < 0.3:
+                return rng.choice(cands)
+            if X.is_implies() and k < 0.7:
+                return prove(X.arg, d - 1).implies_intr(X.arg1)
+            if d > 0 and k < 0.8:
+                Y = rng.choice(atoms)
+                return prove(Implies(Y, X), d - 1).implies_elim(prove(Y, d - 1))
+            return P.assume(X)
+        goal = rng.choice(atoms) if rng.random() < 0.5 else Implies(rng.choice(atoms), rng.choice(atoms))
+        pt = prove(goal, rng.randint(1, 4))
+        if pt.rule == "atom":
+            pt = pt.implies_intr(rng.choice(atoms))
+        return prems, pt
+
+    def synthetic(self, n):
+        """Property oracle on `ProofTerm.export` itself (every node satisfies the constructor invariant by
+        construction): the real checker must accept the real export at check_level=0 with exactly pt.th."""
+        from harness.common import sexp
+        impl = self.impl
+        ItemID, Proof, ProofItem = impl.proof.ItemID, impl.proof.Proof, impl.proof.ProofItem
+        rng = self.ctx.rng("export-synth")
+        for idx in range(n):
+            prems, pt = self.synth_one(rng)
+            npm = len(prems)
+            self.ctx.count("export-synth:cases")
+            try:
+                real = pt.export(ItemID(npm))
+                prf = Proof()
+                for i, th in enumerate(prems):
+                    prf.add_item(i, "sorry", th=th)
+                item = ProofItem(npm, "subproof")
+                item.subproof = real
+                prf.items.append(item)
+                th = impl.theory.check_proof(prf, check_level=0)
+                ok = (th.prop == pt.th.prop and tuple(th.hyps) == tuple(pt.th.hyps) and real.items[-1].th == pt.th)
+                why = "" if ok else "checked export states %s, proof term states %s" % (th, pt.th)
+            except Exception as e:  # noqa
+                ok, why = False, "%s: %s" % (type(e).__name__, str(e)[:200])
+                real = None
+            self.ctx.case(("export-synth", idx), nontrivial=True)
+            if not ok:
+                self.ctx.violation("export:checked-export-differs", "ProofTerm.export of a derivation built from primitive rules "
+                                   "(premises %s, root %s) is not accepted with the root's sequent: %s" % ([str(t) for t in prems], pt.th, why),
+                                   {"kind": "synthetic-export", "index": idx, "premises": [str(t) for t in prems], "root": str(pt.th), "why": why})
+                continue
+            coder, table = Coder(), []
+            try:
+                wire = pt_wire(pt, coder, table, [3000])
+            except TooBig:
+                continue
+            real_items = [[list(it.id.id), sexp.enc(it.rule), coder.arg(it.args), [list(p.id) for p in it.prevs], coder.seq(it.th)]
+                          for it in real.items]
+            ctxl = [[[i], coder.seq(t)] for i, t in enumerate(prems)]
+            seen, tbl = set(), []
+            for e in table:
+                k = sexp.dumps(e[:3])
+                if k not in seen:
+                    seen.add(k)
+                    tbl.append(e)
+            self.lines.append(sexp.dumps(["export", [npm], wire]))
+            self.lines.append(sexp.dumps(["roundtrip", [npm], ctxl, tbl, wire]))
+            self.expect.append(("synthetic#%d" % idx, real_items, ["ok", coder.seq(pt.th), len(real.items)], len(table)))
+
     def id_cases(self):
         rng = self.rng
         out = [((), ()), ((0,), ()), ((), (0,)), ((1,), (0,)), ((1,), (1,)), ((2, 0), (1,)), ((2, 0), (2,)), ((2, 3), (2, 1)),
@@ -877,6 +960,8 @@ class ExportTie:
         from harness.common import sexp
         ctx = self.ctx
         ItemID = self.impl.proof.ItemID
+        load_state(self.impl, "logic_base", None)
+        self.synthetic(ctx.scale(400, 5000))
         ids = self.id_cases()
         id_lines = [sexp.dumps(["depends", list(a), list(b)]) for a, b in ids]
         out = ctx.lean_driver(EXE, self.lines + id_lines)
@@ -1147,21 +1232,28 @@ def harvest_theory(ctx, impl, oracle, mut, thy, budget_s, mut_rate):
         if item.error:
             continue
         if item.ty == "thm" and getattr(item, "proof", None) and time.time() - t0 < budget_s:
+            from harness.common.ctx import time_limit, Timeout
             impl.cur = (thy, ["thm", item.name])
             del impl.rec[:]
             impl.recording = True
             try:
                 with warnings.catch_warnings():
                     warnings.simplefilter("ignore")
-                    context.set_context(None, vars=item.vars)
-                    server.parse_proof(item.proof)
+                    with time_limit(20):
+                        context.set_context(None, vars=item.vars)
+                        server.parse_proof(item.proof)
                 nproofs += 1
+            except Timeout:
+                ctx.count("library-proofs-over-20s")
             except Exception:  # noqa
                 nfail += 1
             finally:
                 impl.recording = False
             recs = list(impl.rec)
             del impl.rec[:]
+            if len(recs) > 400:                     # a few huge proofs: keep a spread sample
+                step = len(recs) / 400.0
+                recs = [recs[int(i * step)] for i in range(400)]
             for (name, args, ths) in recs:
                 if isinstance(args, str):
                     if args not in mut.thm_names[-200:]:
@@ -1253,9 +1345,13 @@ def run(ctx):
     else:
         allthys = sorted(impl.basic.theory_cache["master"].keys())
         thys = library_order(impl, allthys)
-        budget, rate = 240, 0.5
+        budget, rate = 45, 0.5
     hv = {}
+    t_h0 = time.time()
     for thy in thys:
+        if time.time() - t_h0 > ctx.scale(150, 1100):
+            hv[thy] = {"skipped": "harvest time budget used up"}
+            continue
         try:
             n, nf, secs = harvest_theory(ctx, impl, oracle, mut, thy, budget, rate)
             hv[thy] = {"proofs": n, "failed": nf, "secs": round(secs, 1)}
@@ -1774,6 +1870,13 @@ def replay(ctx, rp):
     """Re-run one recorded failing input on the implementation; True if it still fails."""
     r = rp["replay"]
     impl = Impl(ctx)
+    if r.get("kind") == "synthetic-export":
+        load_state(impl, "logic_base", None)
+        tie = ExportTie(ctx, impl, 0)
+        tie.synthetic(int(r["index"]) + 1)
+        for v in ctx.violations:
+            print("still fails:", v[1][:400])
+        return bool(ctx.violations)
     if not r.get("input"):
         print("replay has no encoded input")
         return False
@@ -1787,5 +1890,62 @@ def replay(ctx, rp):
     return res["verdict"] not in GOOD
 
 
-MANIFEST = {"text": "", "note": "", "design_ref": "DESIGN.md 4/C04"}
-FINDINGS = []
+MANIFEST = {
+    "text": "Lean theorems about an executable model of ProofTerm.export (prefix ids, seq_to_id sharing, citations) and of the checker's "
+            "expansion branch: for every proof term whose nodes satisfy the constructor invariant the exported lines check, state exactly "
+            "the root sequent (same conclusion, no added hypothesis) and cite only earlier lines / admissible lines (export_check, "
+            "export_shared_sequent for every dictionary lookup that identifies only Thm.__eq__-equal sequents); for macros with the default "
+            "eval/expand and a parametric get_proof_term the checked expansion equals eval (default_eval_expand). The macro registry "
+            "(level, eval/expand/get_proof_term overrides) is regenerated from the sources and the lists of eval-overriding and of trusted "
+            "(level 0) macros are pinned by `decide`. Per-macro agreement of eval and expansion is NOT proved: it is validated on every run by "
+            "the real checker (check_level=0) on inputs harvested from the stored library proofs (incl. the nested steps of expansions), "
+            "their mutations, per-family generators and the veriT rule generators.",
+    "note": "Partial: the bodies of the 144 macros are not modelled; 107 of them override eval, so for these agreement is evidence per input "
+            "(counts per macro in evidence: inputs / eval ok / expansion produced / compared / agree; macros never reached are listed). "
+            "Model tied to kernel/proofterm.py by differential runs of the compiled driver on harvested and synthetic proof terms (line "
+            "structure: ids, rules, citations, sequents; checker verdict with all macros evaluated) and on ItemID.can_depend_on. An input on "
+            "which eval raises while an expansion exists is counted (no-evaluation), not a violation, for macros with their own eval. "
+            "Trusted: Lean kernel + propext/Classical.choice/Quot.sound, the harness (recorder, mutators, generators, comparison), "
+            "theory.check_proof as judge of expansions (C01/C02), the ast reader of the registry, harness/props/c18.py generators for veriT "
+            "(if absent the veriT stream is skipped and reported). Thm hash collisions in seq_to_id are outside the model (covered by the "
+            "general-`same` theorem under RuleCompat).",
+    "design_ref": "DESIGN.md 4/C04",
+}
+FINDINGS = [
+    {"status": "fixed", "key": "nat_const_ineq:conclusion-differs:types-only", "commit": "fixes/C04-1-nat_const_ineq.patch",
+     "what": "nat_const_ineq on ~((2::real) = 0): eval reports |- ~((2::real) = 0), the expansion proves |- ~((2::nat) = 0)"},
+    {"status": "fixed", "key": "nat_const_ineq:conclusion-differs:structure", "commit": "fixes/C04-1-nat_const_ineq.patch",
+     "what": "nat_const_ineq on ~(of_nat 1 = (0::nat)): eval reports the goal, the expansion proves the normal form ~((1::nat) = 0)"},
+    {"status": "fixed", "key": "imp_conj:conclusion-differs:head", "commit": "fixes/C04-2-imp_conj.patch",
+     "what": "imp_conj on `A & A` (not an implication): eval reports |- A & A, the expansion proves |- A --> A"},
+    {"status": "fixed", "key": "imp_disj:conclusion-differs:head", "commit": "fixes/C04-3-imp_disj.patch",
+     "what": "imp_disj on `E | E`: eval reports |- E | E, the expansion proves |- E --> E"},
+    {"status": "fixed", "key": "prove_avalI:conclusion-differs:head", "commit": "fixes/C04-4-prove_avalI.patch",
+     "what": "prove_avalI on `r s t n` with another head constant r: eval reports |- r s t n, the expansion proves |- avalI s t n"},
+    {"status": "fixed", "key": "imp_to_or:conclusion-differs:structure", "commit": "fixes/C04-5-imp_to_or.patch",
+     "what": "imp_to_or args=(~c, ~c | a) prevs=[|- a]: eval reports |- ~c | a, the expansion proves |- ~c | ~~(~c | a) | a (goal argument treated as a literal)"},
+    {"status": "fixed", "key": "verit_eq_congruent_pred:expansion-rejected:output-does-not-match", "commit": "fixes/C04-5-imp_to_or.patch",
+     "what": "verit_eq_congruent_pred on ~(x = y) | P x | ~P y: every expansion ends in an imp_to_or step that the checker rejects"},
+    {"status": "fixed", "key": "verit_eq_congruent:expansion-rejected:output-does-not-match", "commit": "fixes/C04-8-verit_eq_congruent.patch",
+     "what": "verit_eq_congruent on ~(y = w) | f w = f y: expansion assumes w = y, which the literal does not discharge; checker rejects (also needs C04-5)"},
+    {"status": "fixed", "key": "verit_th_resolution:expansion-rejected:AssertionError", "commit": "fixes/C04-6-swap_disj_to_front.patch",
+     "what": "verit_th_resolution on [|- false | a, |- ~a | ~d] -> ~d | false: nested swap_disj_to_front / combine_disj_clauses expand to the bare premise, `export: atom` (C04-6, C04-7)"},
+    {"status": "fixed", "key": "verit_norm_lia:conclusion-differs:structure", "commit": "fixes/C04-9-verit_norm_lia.patch",
+     "what": "verit_norm_lia on i: eval reports |- i = 0 + i, the expansion proves |- i = 1 * i"},
+    {"status": "fixed", "key": "verit_norm_lra:conclusion-differs:structure", "commit": "fixes/C04-10-verit_norm_lra.patch",
+     "what": "verit_norm_lra on s: eval reports |- s = 0 + s, the expansion proves |- s = 1 * s"},
+    {"status": "fixed", "key": "verit_la_generic:expansion-rejected:output-does-not-match", "commit": "fixes/C04-9-verit_norm_lia.patch",
+     "what": "verit_la_generic: every expansion with a verit_norm_lia/lra step is rejected by the checker (C04-9, C04-10)"},
+    {"status": "fixed", "key": "fun_upd_eval:expansion-rejected:TypeInferenceException", "commit": "fixes/C04-1-nat_const_ineq.patch",
+     "what": "fun_upd_eval on ((%x::int. 0)(0 := 1)) 3 = 0: the expansion contains a nat_const_ineq step on int numerals (accepted by its eval before C04-1)"},
+    {"status": "fixed", "key": "fun_upd_eval:expansion-rejected:output-does-not-match", "commit": "fixes/C04-1-nat_const_ineq.patch",
+     "what": "same cause as above"},
+    {"status": "fixed", "key": "verit_not_implies1:hypotheses-added:premise-hypotheses-missing-in-eval", "commit": "fixes/C18-08-not_implies-hyps.patch",
+     "what": "verit_not_implies1 on H3 |- ~(a --> e): eval reports |- a, the expansion proves H3 |- a (repaired by the C18 patch)"},
+    {"status": "fixed", "key": "verit_not_implies2:hypotheses-added:premise-hypotheses-missing-in-eval", "commit": "fixes/C18-08-not_implies-hyps.patch",
+     "what": "verit_not_implies2: eval drops the premise's hypotheses (repaired by the C18 patch)"},
+    {"status": "fixed", "key": "verit_subproof:hypotheses-added:premise-hypotheses-missing-in-eval", "commit": "fixes/C18-10-subproof-hyps.patch",
+     "what": "verit_subproof: eval drops hypotheses that the expansion keeps (repaired by the C18 patch)"},
+    {"status": "fixed", "key": "verit_and_pos:conclusion-differs:structure", "commit": "fixes/C18-05-and_pos-or_pos.patch",
+     "what": "verit_and_pos on ((d | ~c), ~c): eval reports |- (d | ~c) | ~c, the expansion proves |- ~~c | ~c (repaired by the C18 patch)"},
+]
